@@ -181,14 +181,21 @@ def make_procs(procs: typing.List[list]) -> list:
     return out
 
 
-def run_impl(text: str, cuts: typing.List[int], procs: typing.List[list]) -> str:
+def run_impl(text: str, cuts: typing.List[int], procs: typing.List[list], markup: bool = False) -> str:
     from nunavut.jinja import CodeGenerator
 
     fn = getattr(CodeGenerator, "_generate_with_line_buffer", None)
     if fn is None:
         raise proc.HarnessError("seam missing: CodeGenerator._generate_with_line_buffer")
     bounds = [0] + list(cuts) + [len(text)]
-    chunks = (text[bounds[i] : bounds[i + 1]] for i in range(len(bounds) - 1))
+    chunks = (text[bounds[i] : bounds[i + 1]] for i in range(len(bounds) - 1))  # type: typing.Iterator[str]
+    if markup:
+        # every other chunk is a Markup object (a str subclass): what an auto-escaped template yields for escaped expressions;
+        # to a writer it is text like any other
+        from nunavut.jinja.jinja2 import Markup
+
+        plain = chunks
+        chunks = (Markup(c) if i % 2 else c for i, c in enumerate(plain))
     out = io.StringIO()
     fn(out, chunks, make_procs(procs))
     return out.getvalue()
@@ -251,6 +258,10 @@ def check_unit(text: str, cuts: typing.List[int], procs: typing.List[list]) -> t
     want = reference(text, procs)
     got = run_impl(text, cuts, procs)
     kinds = "+".join(p[0] for p in procs) or "none"
+    if cuts and any(c in text for c in "<>&'\""):
+        got_m = run_impl(text, cuts, procs, markup=True)
+        if got_m != want:
+            return {"signature": "%s:unit:%s:markup-chunks" % (PROP, kinds), "detail": {"text": text, "cuts": cuts, "procs": procs, "got": got_m, "want": want}}
     if text == "" and not cuts:
         # a template that yields no chunk at all (not even an empty one) writes an empty file
         from nunavut.jinja import CodeGenerator
